@@ -177,10 +177,13 @@ def k0_protection(check, ic, g, rule='C10.R4'):
                         changed = True
         return out
 
+    ic_subst = single_assign_subst(ic.node)
+
     def protected(node, key, depth=0):
         """reaching `node` implies that `key` is not a variable with an initial condition / known time-zero value:
         a branch outcome says so, or `key` ranges over a local list that is only filled under such an outcome"""
-        for test, outcome in g.conditions_at(node):
+        for test0, outcome in g.conditions_at(node):
+            test = resolve_expr(test0, {k_: v_ for k_, v_ in ic_subst.items() if k_ not in zero_alias and k_ != key and isinstance(v_, (ast.BoolOp, ast.Compare, ast.UnaryOp))})
             if outcome is False and isinstance(test, ast.BoolOp) and isinstance(test.op, ast.Or):
                 if any(is_zero_membership(v, key) for v in test.values):
                     return 'not (%s)' % unparse(test)
